@@ -10,7 +10,7 @@ import (
 
 // C06: Point.Equal decides point equality exactly.
 func C06(c *Ctx) {
-	n := c.N(40000, 2000000)
+	n := c.N(160000, 4000000)
 	T := ref.Torsion()
 	for i := int64(0); i < n; i++ {
 		if !c.Mine(i) {
